@@ -18,6 +18,7 @@ ENTRY = dict(
     technique="Lean 4 proof (fork kernel, join window theorem, kernel-checked witness) + exhaustive lock-step replay",
     lean_modules=["Bpmn.Props.C05", "Bpmn.Props.EngineCurrent"],
     families=["c05", "c05n"],
+    harness_files=["c03.go"],
     exhaustive=True,
     facts_from=["Engine"],
     rule=("c05: start -> A -> inclusive fork (c conditions `b_i == 1`, optional default at list position d) -> one task per "
